@@ -285,3 +285,47 @@ func checkUpsertStatements(c *km.Ctx, rule, table string, payload []string, min 
 		c.R.AnchorLost(rule, sprintf("constant insert statements for %s (found %d, expected >= %d)", table, n, min))
 	}
 }
+
+// tstore is a field store of a template, with the stored value expressed in the frame of the function that uses
+// the template (a constructor's parameter is replaced by the argument it was given).
+type tstore struct {
+	At  *ssa.Store
+	Val ssa.Value
+}
+
+// templateStores: the field stores of struct type typ that make up the template fn fills in: those in fn itself,
+// and those in a constructor helper of fn (a module function returning the template type `ctor`) whose result
+// fn keeps as its template.
+func templateStores(c *km.Ctx, fn *ssa.Function, typ, ctor string) map[string][]tstore {
+	out := map[string][]tstore{}
+	for f, ss := range storesByField(fn, typ) {
+		for _, st := range ss {
+			out[f] = append(out[f], tstore{st, st.Val})
+		}
+	}
+	for _, ci := range km.CallsIn(fn) {
+		g := km.StaticCallee(ci.Common())
+		if g == nil || g.Blocks == nil || !c.InModule(g) || g == fn {
+			continue
+		}
+		res := g.Signature.Results()
+		if res.Len() < 1 || km.NamedTypeOf(res.At(0).Type()) != ctor {
+			continue
+		}
+		args := km.CallArgs(ci.Common())
+		for f, ss := range storesByField(g, typ) {
+			for _, st := range ss {
+				v := km.Unwrap(st.Val)
+				if p, ok := v.(*ssa.Parameter); ok {
+					for i, q := range g.Params {
+						if q == p && i < len(args) {
+							v = km.Unwrap(args[i])
+						}
+					}
+				}
+				out[f] = append(out[f], tstore{st, v})
+			}
+		}
+	}
+	return out
+}
